@@ -298,10 +298,10 @@ def run_sequential(reqs, script, lookahead=0):
     srv = _Server(adj, make_app(calls))
 
     class Chan(HTTPChannel):
-        def send_continue(self):
+        def send_continue(self, *a, **kw):
             if self.request.completed:
                 kf_hits.append(getattr(self.request, "path", None))
-            return HTTPChannel.send_continue(self)
+            return HTTPChannel.send_continue(self, *a, **kw)
 
     ch = Chan(srv, sock, ("127.0.0.1", 1234), adj, map={})
     checks = []
@@ -645,13 +645,13 @@ def make_world(reqs, client_script, schedule=(), policy=None, lookahead=0, n_wor
                     finally:
                         world.sched.note("received_exit", world.snap())
 
-                def send_continue(self):
+                def send_continue(self, *a, **kw):
                     rq = object.__getattribute__(self, "request")
                     me = world.sched.me()
                     if rq.completed:
                         world.kf_hits.append(getattr(rq, "path", None))
                     world.sched.note("send_continue", (world.pid(rq), 1 if rq.completed else 0, me.name if me else "-"))
-                    r = base.send_continue(self)
+                    r = base.send_continue(self, *a, **kw)
                     world.sched.note("send_continue_done", world.snap())
                     return r
 
